@@ -104,3 +104,18 @@ theorem decHead_wrong_major (maxAi m m' n : Nat) (r : Input) (hm : m < 8) (hm' :
 theorem encHead_length_pos (m n : Nat) : 0 < (encHead m n).length := by
   unfold encHead; simp only []; repeat' split
   all_goals simp
+
+theorem encHead_cons (m n : Nat) (hm : m < 8) :
+    ∃ b rest, encHead m n = b :: rest ∧ b.toNat / 32 = m := by
+  unfold encHead
+  simp only []
+  split
+  · exact ⟨_, [], rfl, by simp; omega⟩
+  split
+  · exact ⟨_, _, rfl, by simp; omega⟩
+  split
+  · exact ⟨_, _, rfl, by simp; omega⟩
+  split
+  · exact ⟨_, _, rfl, by simp; omega⟩
+  · exact ⟨_, _, rfl, by simp; omega⟩
+
